@@ -146,7 +146,7 @@ func VerifV9MessageTwo() {
 	verifAssume(verifAny((h2-h1)%32 == 0, (h2-h1)%32 == 1))
 	same := verifAll(verifAddrEq4(a, b), did == t.tid)
 	if !same && verifKnown("C04-hash-collision") {
-		verifAssume(h1 != h2)
+		verifAssume(verifRefHash(a, t.tid) != verifRefHash(b, did))
 	}
 	msg1, err1 := NewDecoder(a, w1.b).Decode(m)
 	verifAssert(verifAll(err1 == nil, msg1 != nil), "template-only packet decodes")
